@@ -833,8 +833,14 @@ class SsbGraphMinimizer:
             if isinstance(g.vs[op_i]["op"], SsbForeignLabel):
                 continue  # No out edges here, no real ops here.
             already_visited.add(op_i)
-            for flow_level, nxt in self._get_edges__get_next_for(g, rtn, rtn_id, flow_level, label_indices, op_i):
+            op = g.vs[op_i]["op"]
+            is_call = isinstance(op, SsbLabelJump) and isinstance(op.get_marker(), CallJump)
+            next_ops = self._get_edges__get_next_for(g, rtn, rtn_id, flow_level, label_indices, op_i)
+            for nxt_i, (flow_level, nxt) in enumerate(next_ops):
                 e = g.add_edge(op_i, nxt, flow_level=flow_level, label=None, is_else=False, switch_ops=None, loop=False)
+                # The edge to the label of a label jump is always the last one. For calls it is marked, because the
+                # flow levels of the two edges of a call may become equal when jumps after it are removed.
+                e["call"] = is_call and nxt_i == len(next_ops) - 1
                 if is_loop(g, g.vs[op_i], e):
                     e["loop"] = True
                 self._update_edge_style(e)
@@ -982,10 +988,7 @@ class SsbGraphMinimizer:
     @staticmethod
     def _is_call_edge(g: Graph, e: Edge) -> bool:
         """Whether e leads from a call to the label it calls (that label has to be written)."""
-        op = e.source_vertex["op"]
-        if not (isinstance(op, SsbLabelJump) and isinstance(op.get_marker(), CallJump)):
-            return False
-        return find_lowest_and_highest_out_edge(g, e.source_vertex, "flow_level")[1] == e
+        return bool(e["call"])
 
     def get_graphs(self) -> list[Graph]:
         return self._graphs
